@@ -150,6 +150,20 @@ func (e *Engine) intrinsic(st *State, f *Frame, fn *ssa.Function, args []Value, 
 	case "(*sync.WaitGroup).Wait":
 		if st.open != nil {
 			e.openWaitPoint(st, "WaitGroup.Wait", ins)
+			return ret(nil), true
+		}
+		{
+			p := args[0].(*PtrVal)
+			cur := st.ghost["wg:"+e.lockKey(st, p)]
+			if cur != nil {
+				zero, ok := e.branch(st, Eq(cur, c64(0)), ins, "wg-zero")
+				if !ok {
+					return stDone, true
+				}
+				if !zero {
+					return e.blocked(st, "WaitGroup.Wait with outstanding tasks", ins), true
+				}
+			}
 		}
 		return ret(nil), true
 	case "(*sync.Cond).Wait", "(*sync.Cond).Signal", "(*sync.Cond).Broadcast":
@@ -458,6 +472,16 @@ func (e *Engine) harnessIntrinsic(st *State, f *Frame, fn *ssa.Function, name st
 			n += c
 		}
 		return ret(c64(int64(n)))
+	case "vHavocChan":
+		id := st.newObj(&ChanContent{havoc: true}, nil, "havoc-chan")
+		return ret(&ChanVal{obj: id})
+	case "vWaitGroupCount":
+		p := args[0].(*PtrVal)
+		cur := st.ghost["wg:"+e.lockKey(st, p)]
+		if cur == nil {
+			cur = c64(0)
+		}
+		return ret(cur)
 	case "vPar":
 		return e.parStart(st, f, args, ins, ret)
 	}
